@@ -7,6 +7,11 @@ import (
 
 func DecodeSecret(secret string) ([]byte, error) {
 	secret = strings.TrimSpace(secret)
+	// encoding/base32 silently skips CR and LF wherever they occur; inside a
+	// secret they are characters outside the alphabet like any other.
+	if i := strings.IndexAny(secret, "\r\n"); i >= 0 {
+		return nil, base32.CorruptInputError(i)
+	}
 	if n := len(secret) % 8; n != 0 {
 		secret = secret + strings.Repeat("=", 8-n)
 	}
